@@ -11,7 +11,7 @@
      <reader> { ; <meter> x<stream> <mono> <double> <temporality> <start> <end> { , (x<key> x<value>)* <sum> } }
    with streams sorted by (meter, name), points by attribute set; start/end are logical times (0 = SDK start, k = the k-th op).
    observation of RACE:  F <timestamps ok> { ; <reader> <meter> x<stream> (x<key> x<value>)* <total> }   sorted *)
-From V Require Export C06.Good C06.SpecSched Gen.Consts.
+From V Require Export C06.Good C06.SpecSched C06.Lts Gen.Consts.
 Local Open Scope Z_scope.
 
 Inductive case :=
@@ -269,25 +269,192 @@ Definition srace_wf (c : config) (ns : list op) (ths : list (list op)) : bool :=
   forallb (fun r => Nat.leb (length (filter (fun th => existsb (fun o => match o with OCol r' => Nat.eqb r r' | _ => false end) th) ths)) 1)
           (seq 0 (nreaders c)).
 
-Definition parse_ev (l : list tok) : option tev :=
+(* the shim's log: "<thread> <words>" entries.  xchg <obj> 1 0 is a successful lock(), st <obj> 0 an unlock(); failed
+   attempts, loads, yields and sleeps are spinning *)
+Inductive obj := ObjA (h : nat) | ObjT (h : nat) | ObjM (m : nat) | ObjG | ObjOther.
+Inductive raw :=
+| RwLock (o : obj) | RwUnlock (o : obj)
+| RwAC (i : nat) | RwAR (i : nat) | RwCC (i : nat)
+| RwCR (i r : nat) (tb ta : Z) (outs : list sdata)
+| RwNoise.
+
+Fixpoint dec_of (acc : nat) (l : bytes) : option nat :=
+  match l with
+  | [] => Some acc
+  | b :: l' => if isdigit b then dec_of (10 * acc + N.to_nat (b2n b - 48)) l' else None
+  end.
+Definition parse_obj (name : bytes) : obj :=
+  match name with
+  | c :: d :: rest =>
+      match dec_of 0 (d :: rest) with
+      | Some k => if Byte.eqb c x41 then ObjA k else if Byte.eqb c x54 then ObjT k else if Byte.eqb c x4d then ObjM k else ObjOther
+      | None => ObjOther
+      end
+  | [c] => if Byte.eqb c x47 then ObjG else ObjOther
+  | [] => ObjOther
+  end.
+
+Definition parse_raw (l : list tok) : option (Z * raw) :=
   match split_toks "/" l with
-  | [t; TZ th; TZ i] :: [] =>
-      if (0 <=? th) && (0 <=? i) then
-        if is_tag "AC" t then Some (EAC (Z.to_nat th) (Z.to_nat i))
-        else if is_tag "AR" t then Some (EAR (Z.to_nat th) (Z.to_nat i))
-        else if is_tag "CC" t then Some (ECC (Z.to_nat th) (Z.to_nat i))
-        else None
-      else None
-  | [t; TZ th; TZ i; TZ r; TZ tb; TZ ta] :: mds =>
-      if is_tag "CR" t && (0 <=? th) && (0 <=? i) && (0 <=? r) then
-        option_map (ECR (Z.to_nat th) (Z.to_nat i) (Z.to_nat r) tb ta) (all_some (map parse_sdata mds))
-      else None
+  | (TZ t :: w :: rest) :: mds =>
+      if is_tag "CR" w then
+        match rest with
+        | [TZ i; TZ r; TZ tb; TZ ta] =>
+            if (0 <=? i) && (0 <=? r)
+            then option_map (fun o => (t, RwCR (Z.to_nat i) (Z.to_nat r) tb ta o)) (all_some (map parse_sdata mds))
+            else None
+        | _ => None
+        end
+      else match mds with
+           | [] =>
+               match rest with
+               | [TZ i] =>
+                   if 0 <=? i then
+                     if is_tag "AC" w then Some (t, RwAC (Z.to_nat i))
+                     else if is_tag "AR" w then Some (t, RwAR (Z.to_nat i))
+                     else if is_tag "CC" w then Some (t, RwCC (Z.to_nat i))
+                     else Some (t, RwNoise)
+                   else Some (t, RwNoise)
+               | [TT name; TZ d; TZ old] =>
+                   if is_tag "xchg" w && (d =? 1) && (old =? 0) then Some (t, RwLock (parse_obj name)) else Some (t, RwNoise)
+               | [TT name; TZ d] =>
+                   if is_tag "st" w && (d =? 0) then Some (t, RwUnlock (parse_obj name)) else Some (t, RwNoise)
+               | _ => Some (t, RwNoise)
+               end
+           | _ => None
+           end
   | _ => None
   end.
-Definition parse_trace (l : list tok) : option (Z * list tev) :=
+(* times are made relative to the SDK start time (0 in the model) *)
+Definition shift_sdata (sdk : Z) (o : sdata) : sdata :=
+  mkSData (o_meter o) (o_name o) (o_kind o)
+          (mkMD (md_temp (o_md o)) (md_start (o_md o) - sdk) (md_end (o_md o) - sdk) (md_points (o_md o))).
+Definition shift_raw (sdk : Z) (x : Z * raw) : Z * raw :=
+  match snd x with
+  | RwCR i r tb ta outs => (fst x, RwCR i r (tb - sdk) (ta - sdk) (map (shift_sdata sdk) outs))
+  | _ => x
+  end.
+Definition parse_trace (l : list tok) : option (Z * list (Z * raw)) :=
   match split_toks ";" l with
-  | [t; TZ sdk] :: evs => if is_tag "S" t then option_map (fun x => (sdk, x)) (all_some (map parse_ev evs)) else None
+  | [t; TZ sdk] :: evs =>
+      if is_tag "S" t then option_map (fun x => (0, map (shift_raw sdk) x)) (all_some (map parse_raw evs)) else None
   | _ => None
+  end.
+
+(* threads are numbered 0 .. T-2 in the order of the script; the controller (-1), which makes the final collections, is T-1 *)
+Definition tid_of (nth : nat) (t : Z) : nat := if t <? 0 then nth else Z.to_nat t.
+Definition thread_op (ths : list (list op)) (t i : nat) : option op :=
+  if Nat.eqb t (length ths) then Some (OCol i) else nth_error (nth t ths []) i.
+
+(* the call/return trace C06/SpecSched.v is evaluated on *)
+Definition tev_of (ths : list (list op)) (tr : list (Z * raw)) : list tev :=
+  flat_map (fun x => let t := tid_of (length ths) (fst x) in
+                     match snd x with
+                     | RwAC i => [EAC t i]
+                     | RwAR i => [EAR t i]
+                     | RwCC i => [ECC t i]
+                     | RwCR i r tb ta outs => [ECR t i r tb ta outs]
+                     | _ => []
+                     end) tr.
+
+(* ------------------------------------------------------------------------------------------------ the acceptor's view *)
+(* the events of C06/Lts.v for the storage behind handle h (meter m, kind k, stream name sn), read off the shim's log.
+   [cur] says, per thread, which operation of the script it is executing *)
+Definition next_ts (t : Z) (m : nat) (sn : bytes) (rest : list (Z * raw)) : Z :=
+  match find (fun x => (fst x =? t) && match snd x with RwCR _ _ _ _ _ => true | _ => false end) rest with
+  | Some (_, RwCR _ _ _ ta outs) => match stream_md outs m sn with Some d => md_end d | None => ta end
+  | _ => 0
+  end.
+
+(* one log entry: the event(s) it is for this storage and the operation the thread is executing afterwards *)
+Definition lts_event1 (ths : list (list op)) (h m : nat) (k : ikind) (sn : bytes) (cur : nat -> option op)
+                      (tz : Z) (e : raw) (rest : list (Z * raw)) : list (nat * ev akey) * (nat -> option op) :=
+  let t := tid_of (length ths) tz in
+  let mine := match cur t with
+              | Some (OAdd h' v a) => if Nat.eqb h' h then match api_value k v with Some v' => Some (canon a, v') | None => None end else None
+              | _ => None
+              end in
+  let reader := match cur t with Some (OCol r) => Some r | _ => None end in
+  match e with
+  | RwAC i | RwCC i =>
+      let o := thread_op ths t i in
+      (match o with
+       | Some (OAdd h' v a) =>
+           if Nat.eqb h' h then match api_value k v with Some v' => [(t, EAddCall (canon a) v')] | None => [] end else []
+       | Some (OCol r) => [(t, EColCall r)]
+       | _ => []
+       end, upd cur t o)
+  | RwAR _ => (match mine with Some (key, v') => [(t, EAddRet key v')] | None => [] end, upd cur t None)
+  | RwCR _ r _ _ outs => ([(t, EColRet r (stream_md outs m sn))], upd cur t None)
+  | RwLock o =>
+      (match o, mine, reader with
+       | ObjA h', Some _, _ => if Nat.eqb h' h then [(t, EALock)] else [(t, EOther)]
+       | ObjA h', None, Some r => if Nat.eqb h' h then [(t, ECLockA r)] else [(t, EOther)]
+       | ObjT h', _, Some r => if Nat.eqb h' h then [(t, ECLockT r)] else [(t, EOther)]
+       | ObjM m', _, Some r => if Nat.eqb m' m then [(t, ECLockM r)] else [(t, EOther)]
+       | _, _, _ => [(t, EOther)]
+       end, cur)
+  | RwUnlock o =>
+      (match o, mine, reader with
+       | ObjA h', Some (key, v'), _ => if Nat.eqb h' h then [(t, EAUnlock key v')] else []
+       | ObjA h', None, Some r => if Nat.eqb h' h then [(t, ECUnlockA r (next_ts tz m sn rest))] else []
+       | ObjT h', _, Some r => if Nat.eqb h' h then [(t, ECUnlockT r)] else []
+       | ObjM m', _, Some r => if Nat.eqb m' m then [(t, ECUnlockM r)] else []
+       | _, _, _ => []
+       end, cur)
+  | RwNoise => ([], cur)
+  end.
+
+Fixpoint lts_events (ths : list (list op)) (h m : nat) (k : ikind) (sn : bytes) (cur : nat -> option op)
+                    (tr : list (Z * raw)) : list (nat * ev akey) :=
+  match tr with
+  | [] => []
+  | (tz, e) :: rest =>
+      let '(evs, cur') := lts_event1 ths h m k sn cur tz e rest in
+      evs ++ lts_events ths h m k sn cur' rest
+  end.
+
+(* what the acceptor's outputs amount to for one reader: the merge of its delta points / its last cumulative table *)
+Definition reader_table (c : config) (r : nat) (outs : list (nat * Z * option amdata)) : atable :=
+  fold_left (fun acc x =>
+               let '(r', _, o) := x in
+               if Nat.eqb r r' then
+                 match o with
+                 | Some d => if is_delta (temp_of c r) then tmerge akey akey_eqb acc (md_points d) else md_points d
+                 | None => acc
+                 end
+               else acc) outs [].
+
+(* run the acceptor of every storage over the trace (strict: the collector holds Meter::storage_lock_ throughout);
+   the totals it derives, or where it stops *)
+Fixpoint accept_storages (c : config) (ths : list (list op)) (tr : list (Z * raw)) (h : nat)
+                         (hs : list (Z * nat * ikind * bytes)) : list (nat * bytes * ikind * list (nat * Z * option amdata)) + list tok :=
+  match hs with
+  | [] => inl []
+  | (_, m, k, name) :: hs' =>
+      let sn := stream_name name (hd [] (find_views (c_views c) m k name)) in
+      let evs := lts_events ths h m k sn (fun _ => None) tr in
+      match lrun_fwd akey akey_eqb (is_mono k) (nreaders c) (temp_of c) (S (length ths)) true
+                     (linit akey) 0 evs with
+      | inl s =>
+          match accept_storages c ths tr (S h) hs' with
+          | inl rest => inl ((m, sn, k, l_outs akey s) :: rest)
+          | inr e => inr e
+          end
+      | inr i => inr [tag "REJECT"; tnat h; tnat i]
+      end
+  end.
+
+Definition lts_totals (c : config) (ns : list op) (ths : list (list op)) (tr : list (Z * raw)) : list tok :=
+  match accept_storages c ths tr 0 (news (timed ns)) with
+  | inr e => e
+  | inl sts =>
+      print_totals (totals_of (map (fun r => (r, flat_map (fun x => let '(m, sn, k, outs) := x in
+                                                               match reader_table c r outs with
+                                                               | [] => []
+                                                               | t => [mkSData m sn k (mkMD (temp_of c r) 0 0 t)]
+                                                               end) sts))
+                                   (seq 0 (nreaders c))))
   end.
 
 Definition run_model (l : list tok) : list tok :=
@@ -296,8 +463,17 @@ Definition run_model (l : list tok) : list tok :=
   | Some (CRace c ns adds) =>
       if case_wf c (race_ops c ns adds) then print_totals (totals_of (run c (race_ops c ns adds))) else bad_case
   | Some (CSRace c ns ths) =>
-      (* the order-independent part: what every reader must have in total once everything has quiesced *)
-      if srace_wf c ns ths then print_totals (totals_of (run c (race_ops c ns (thread_adds ths)))) else bad_case
+      (* the order-independent part: what every reader must have in total once everything has quiesced
+      (the acceptor of C06/Lts.v on the implementation's trace derives them; without a trace: the sequential run) *)
+      if srace_wf c ns ths then
+        match snd (split_trace l) with
+        | [] => print_totals (totals_of (run c (race_ops c ns (thread_adds ths))))
+        | trc => match parse_trace trc with
+                 | Some (_, tr) => lts_totals c ns ths tr
+                 | None => [tag "UNPARSABLE_TRACE"]
+                 end
+        end
+      else bad_case
   | None => bad_case
   end.
 
@@ -349,7 +525,7 @@ Definition run_spec (l obs : list tok) : list tok :=
         | None => fail "obs:unparsable"
         end ++
         match parse_trace (snd (split_trace l)) with
-        | Some (sdk, tr) => spec_sched c ns ths sdk tr
+        | Some (sdk, tr) => spec_sched c ns ths sdk (tev_of ths tr)
         | None => fail "obs:unparsable_trace"
         end
       else bad_case
